@@ -135,6 +135,16 @@ def judge_pair(env, a, b, xs, ys, scalar, part, out, quick_forms=False, dtype="f
     elif dtype == "float32":
         # keep away from float32 subnormals: a reading below 1e-3 in magnitude is taken as 0
         xs, ys = [float(np.float32(v)) if abs(v) >= 1e-3 else 0.0 for v in xs], [float(np.float32(v)) if abs(v) >= 1e-3 else 0.0 for v in ys]
+    else:
+        # readings are temperatures, not probes of the float format: anything below 1e-3 in magnitude (Hypothesis shrinks
+        # towards 5e-324) is taken as 0 so that under/overflow of the format itself is never mistaken for a wrong value
+        xs, ys = [v if abs(v) >= 1e-3 else 0.0 for v in xs], [v if abs(v) >= 1e-3 else 0.0 for v in ys]
+    if dtype == "float32":
+        ra = float(env.tab[a][0] / env.tab[b][0])
+        if not (1e-24 < abs(ra) < 1e24):
+            part.count("float32 pair whose scale ratio leaves the float32 range: not judged in single precision")
+            _DT[0] = "float64"
+            return None
     try:
         return _judge_pair(env, a, b, xs, ys, scalar, part, out, quick_forms)
     finally:
